@@ -4,7 +4,7 @@ For every operator configuration (harness/jaxpr_ops.py, built on harness/opgrid.
 (eval, adj; gram, T, H, conj, gram_op, T.adj, H.adj) the JAX-traced program is translated to the IR of
 `Scico/Model/Jaxpr.lean` (harness/jaxpr_ir.py) and one obligation
 
-    example : check prog = <tag> := by decide +kernel
+    example : checkFast prog = <tag> := by decide +kernel        (checkFast = check, theorem C06_checkFast_eq_check)
 
 is emitted, where <tag> is `.linC` for operators over ℂ (input and output dtype complex) and one of
 `.linC | .antiC | .linR` for operators over ℝ (all three mean ℝ-linear there).  When the Python mirror of the checker
@@ -69,7 +69,8 @@ def trace_view(A, view, fn, shp, dt):
 
 def choose_views(rng, thorough, extra_quick=2):
     if thorough:
-        return list(ops.ALL_VIEWS)
+        # whole grid: eval and adj always; gram and the six derived views for a seeded quarter of the configurations
+        return list(ops.ALL_VIEWS) if rng.random() < 0.25 else ["eval", "adj"]
     extra = [v for v in ops.ALL_VIEWS if v not in ("eval", "adj")]
     sel = sorted(rng.choice(len(extra), size=extra_quick, replace=False).tolist())
     return ["eval", "adj"] + [extra[i] for i in sel]
@@ -86,14 +87,20 @@ def _nonint_shape(A):
     return any(not isinstance(e, (int, np.integer)) for e in list(flat(A.input_shape)) + list(flat(A.output_shape)))
 
 
-def collect(rng, thorough, per_class, hist=None, known_ids=()):
+def collect(rng, thorough, per_class, hist=None, known_ids=(), on_view=None):
     """Enumerate operators and views, trace and translate.
-    -> (records, programs) ; programs: key -> dict(prog, field, tag, ok, pid, users)"""
+    -> (records, programs) ; programs: key -> dict(prog, field, tag, ok, pid, users).
+    `on_view(rec, A, fn, shp, dt)` is called for every view whose map could be obtained (the numerical probes run
+    there, while the operator is alive: operators are not retained, compiled executables are dropped regularly)."""
+    import gc
     import warnings
+
+    import jax
 
     warnings.filterwarnings("ignore")
     records = []
     programs = {}
+    nops = 0
 
     def count(k):
         if hist is not None:
@@ -105,6 +112,10 @@ def collect(rng, thorough, per_class, hist=None, known_ids=()):
             count(f"build-error:{cls}")
             continue
         fld = field_of(A)
+        nops += 1
+        if nops % 100 == 0:
+            jax.clear_caches()
+            gc.collect()
         for view, fn, shp, dt in ops.views(A, choose_views(rng, thorough)):
             rec = {"cls": cls, "config": cfg, "view": view, "field": fld}
             records.append(rec)
@@ -134,6 +145,8 @@ def collect(rng, thorough, per_class, hist=None, known_ids=()):
                 else:
                     rec.update(status="operator-raises", detail=f"{type(e).__name__}: {str(e)[:300]}")
                     count(f"operator-raises:{cls}.{view}")
+                if eager_ok and on_view is not None:
+                    on_view(rec, A, fn, shp, dt)
                 continue
             rec["traced"] = how
             if how != "public":
@@ -143,6 +156,8 @@ def collect(rng, thorough, per_class, hist=None, known_ids=()):
             except ir.NotTranslatable as e:
                 rec.update(status="not-translatable", prim=e.prim, detail=str(e))
                 count(f"not-translatable:{e.prim}")
+                if on_view is not None:
+                    on_view(rec, A, fn, shp, dt)
                 continue
             tag = ir.check(prog)
             key = (prog.key(), fld)
@@ -159,7 +174,15 @@ def collect(rng, thorough, per_class, hist=None, known_ids=()):
             if len(ent["users"]) == 1:
                 for pn, k in prog.prims.items():
                     count(f"prim:{pn}", )
+            if on_view is not None:
+                on_view(rec, A, fn, shp, dt)
+    jax.clear_caches()
+    gc.collect()
     return records, programs
+
+
+def op_key(cls, cfg):
+    return json.dumps([cls, cfg], sort_keys=True, default=str)
 
 
 def _desc(rec):
@@ -212,7 +235,7 @@ def emit(records, programs, nbuckets):
             want = e["tag"] if e["ok"] else "linC"
             if not e["ok"]:
                 lines.append(f"-- the checker's verdict is {ir.tag_str(e['tag'])}: first rejected equation {ir.first_bad(prog)}")
-            lines.append(f"example : check {name} = {ir.tag_lean(want)} := by decide +kernel")
+            lines.append(f"example : checkFast {name} = {ir.tag_lean(want)} := by decide +kernel")
             lines.append("")
             nprog += 1
             entries.append({"kind": "program", "name": name, "ok": e["ok"], "tag": ir.tag_str(e["tag"]), "users": e["users"], "hash": e["hash"]})
@@ -236,9 +259,9 @@ def emit(records, programs, nbuckets):
     return out, index
 
 
-def generate(rng, thorough, per_class, nbuckets, hist=None, known_ids=()):
+def generate(rng, thorough, per_class, nbuckets, hist=None, known_ids=(), on_view=None):
     t0 = time.time()
-    records, programs = collect(rng, thorough, per_class, hist, known_ids)
+    records, programs = collect(rng, thorough, per_class, hist, known_ids, on_view)
     t1 = time.time()
     mods, index = emit(records, programs, nbuckets)
     # build all modules at once (lake elaborates them in parallel); the runner's per-module builds are then no-ops
